@@ -51,6 +51,7 @@ var shapeClasses = []string{
 	"double-fork daemon in group",
 	"TERM-ignoring leaves",
 	"parent exits first",
+	"leader execs another program",
 }
 
 const randomClass = "random tree"
@@ -97,6 +98,19 @@ func buildShape(class string, rng *rand.Rand, start string) *node {
 			} else {
 				root.K = append(root.K, leaf("h"))
 			}
+		}
+	case "leader execs another program":
+		// a launcher: starts helpers, then replaces itself by the real program (its name changes, its pid does not)
+		root = &node{F: "e"}
+		for i, n := 0, 1+rng.IntN(3); i < n; i++ {
+			k := leaf("")
+			if rng.IntN(3) == 0 {
+				k = leaf("h")
+			}
+			if rng.IntN(4) == 0 {
+				k.F += "e"
+			}
+			root.K = append(root.K, k)
 		}
 	case "double-fork daemon in group":
 		// root -> intermediate that exits -> daemon (orphaned, still in the group)
@@ -228,6 +242,10 @@ func genCases(r *vrun.Run) []caseSpec {
 			c.Pipes = "held by descendant"
 		}
 		pickInstant(&c, instant, rng)
+		if class == "leader execs another program" {
+			// the hand-over to the other program follows the announcement of readiness: stop once it has happened
+			c.Anchor, c.DelayMs = "ready", 40+rng.IntN(120)
+		}
 		out = append(out, c)
 	}
 	// Directed cases, present in every run (every seed, both tiers), first in the list so that their wait
